@@ -413,7 +413,7 @@ func checkC03(c *Ctx, r *Report) {
 			if !ok {
 				return false
 			}
-			if calleeName(call) == "time.Parse" {
+			if calleeName(call) == "time.Parse" || calleeName(call) == "net/http.ParseTime" {
 				return true
 			}
 			h := unwrapSynthetic(staticCallee(call))
@@ -426,7 +426,7 @@ func checkC03(c *Ctx, r *Report) {
 					for _, rv := range retVals(ret) {
 						if derivesFrom(rv, func(w ssa.Value) bool {
 							c2, ok := w.(*ssa.Call)
-							return ok && calleeName(c2) == "time.Parse"
+							return ok && (calleeName(c2) == "time.Parse" || calleeName(c2) == "net/http.ParseTime")
 						}) {
 							found = true
 						}
